@@ -138,14 +138,28 @@ func loadAllLedger(regs map[atree.SlabID][]byte) (*atree.PersistentSlabStorage, 
 	led := NewLedgerFrom(regs, nil)
 	ps := newStorage(led)
 	ids := sortedIDs(regs)
-	// "all slabs loaded" is established alternately by one parallel preload and by retrieving every register one by one
-	if loadAllCalls++; loadAllCalls%2 == 0 {
+	// "all slabs loaded" is established in turn by one parallel preload, by two parallel preloads and by retrieving every
+	// register one by one
+	switch loadAllCalls++; loadAllCalls % 3 {
+	case 0:
 		for _, id := range ids {
 			if _, _, err := ps.Retrieve(id); err != nil {
 				return nil, nil, err
 			}
 		}
 		return ps, led, nil
+	case 1:
+		// in two parallel preloads (what the first one loaded must still be there after the second)
+		if len(ids) >= 24 {
+			h := len(ids) / 2
+			if err := ps.BatchPreload(ids[:h], 4); err != nil {
+				return nil, nil, err
+			}
+			if err := ps.BatchPreload(ids[h:], 4); err != nil {
+				return nil, nil, err
+			}
+			return ps, led, nil
+		}
 	}
 	if err := ps.BatchPreload(ids, 4); err != nil {
 		return nil, nil, err
@@ -889,7 +903,11 @@ func (w *World) batchBytes(builds int) error {
 		}
 		// byte slice -> byte array (single-slab fast path and batch path), bytes of both CBOR widths mixed
 		{
-			L := []int{1, 2, 5, 9, 30, 70}[r.Intn(6)]
+			tgt := int(th.Target)
+			L := []int{1, 2, 5, 9, 30, 70, tgt / 4, tgt/2 - 8, tgt - 10, tgt / 3}[r.Intn(10)]
+			if L > 3000 {
+				L = 3000
+			}
 			data := make([]byte, L)
 			for i := range data {
 				switch r.Intn(3) {
